@@ -190,6 +190,8 @@ def memo_args(src):
         for p in f.params:
             if p == "self" and f.cls in ("Dimension", "Prefix", "Unit"):
                 continue
+            if p == "cls" and f.kind == "class" and False:
+                continue
             ann = f.annotations.get(p)
             t = ast.unparse(ann).strip("'\"") if ann is not None else None
             if t not in ("Dimension", "Prefix", "Unit"):
@@ -297,3 +299,66 @@ def lean_lemmas(src):
             json.dump({"sha": sha}, open(marker, "w"))
             return {oid: {"status": "discharged", "note": "lean exit 0", "ms": round((time.time() - t) * 1000), "backend": "lean-4"}}
         return {oid: {"status": "undecided", "note": "lean reported errors: %s" % p.stdout[-300:], "ms": 0, "backend": "lean"}}
+
+
+def core_state(src):
+    """the library keeps no mutable class-level or module-level state besides the intern tables and
+    registries the contracts talk about (any other cache makes results depend on the call history)"""
+    prog = Program(src)
+    core = prog.modules["measured"]
+    allowed = {"Dimension": {"_known", "_fundamental", "_by_name"}, "Prefix": {"_known", "_by_name", "_by_symbol"},
+               "Unit": {"_known", "_base", "_by_name", "_by_symbol"}, "Logarithm": {"_known"}, "LogarithmicUnit": {"_known"}}
+    extra = []
+
+    def mutable(val):
+        return isinstance(val, (ast.Dict, ast.List, ast.Set, ast.DictComp, ast.ListComp, ast.SetComp)) or (
+            isinstance(val, ast.Call) and ast.unparse(val.func) in ("dict", "list", "set", "defaultdict", "OrderedDict", "collections.defaultdict"))
+
+    for cname, ci in core.classes.items():
+        for sub in ci.node.body:
+            tgt = val = None
+            if isinstance(sub, ast.Assign) and len(sub.targets) == 1 and isinstance(sub.targets[0], ast.Name):
+                tgt, val = sub.targets[0].id, sub.value
+            elif isinstance(sub, ast.AnnAssign) and isinstance(sub.target, ast.Name) and sub.value is not None:
+                tgt, val = sub.target.id, sub.value
+            if tgt and mutable(val) and tgt not in allowed.get(cname, set()):
+                extra.append("%s.%s (line %d)" % (cname, tgt, sub.lineno))
+    for node in core.tree.body:
+        tgt = val = None
+        if isinstance(node, ast.Assign) and len(node.targets) == 1 and isinstance(node.targets[0], ast.Name):
+            tgt, val = node.targets[0].id, node.value
+        elif isinstance(node, ast.AnnAssign) and isinstance(node.target, ast.Name) and node.value is not None:
+            tgt, val = node.target.id, node.value
+        if tgt and mutable(val) and tgt not in ("ROOT_POWER_DIMENSIONS",):
+            extra.append("%s (line %d)" % (tgt, node.lineno))
+    return {"state/static:no-mutable-state-besides-the-registries": {
+        "status": "discharged" if not extra else "refuted", "ms": 0, "backend": "static-scan", "complete": True,
+        "note": "mutable class/module-level state outside the registries: %s" % ", ".join(extra) if extra else ""}}
+
+
+def registry_writers(src):
+    """names and symbols are bound only by the declaring functions (alias, the named constructors, derive):
+    parsing and every other query leave the registries alone (C17, C19)"""
+    prog = Program(src)
+    core = prog.modules["measured"]
+    allowed = {("Unit", "alias"), ("Prefix", "__init__"), ("Dimension", "__init__"), ("Dimension", "derive")}
+    bad = []
+    for m in prog.modules.values():
+        if m.name in ("measured.hypothesis", "measured.pytest"):
+            continue
+        for node in ast.walk(m.tree):
+            pass
+    for cname, ci in core.classes.items():
+        for mname, fi in ci.methods.items():
+            for n in ast.walk(fi.node):
+                if isinstance(n, ast.Subscript) and isinstance(n.ctx, (ast.Store, ast.Del)) and isinstance(n.value, ast.Attribute) and n.value.attr in ("_by_name", "_by_symbol"):
+                    if (cname, mname) not in allowed:
+                        bad.append("%s.%s line %d writes %s" % (cname, mname, n.lineno, n.value.attr))
+    for mod in prog.modules.values():
+        if mod.name == "measured":
+            continue
+        for n in ast.walk(mod.tree):
+            if isinstance(n, ast.Subscript) and isinstance(n.ctx, (ast.Store, ast.Del)) and isinstance(n.value, ast.Attribute) and n.value.attr in ("_by_name", "_by_symbol"):
+                bad.append("%s line %d writes %s" % (mod.name, n.lineno, n.value.attr))
+    return {"registry/static:only-declaring-functions-write-names-and-symbols": {
+        "status": "discharged" if not bad else "refuted", "ms": 0, "backend": "static-scan", "complete": True, "note": "; ".join(bad)}}
